@@ -70,13 +70,18 @@ Definition grid (t : ltree) : list (N * N) :=
   let qw := N.min (l_ww t + 2) 14 in
   flat_map (fun r => map (fun c => (N.of_nat r, N.of_nat c)) (seq 0 (N.to_nat qw))) (seq 0 (N.to_nat qh)).
 
+(* hit-testing through the checked model: a subtraction that would underflow shows as a path no
+   implementation returns *)
+Definition fp (t : ltree) (q : N * N) : list nat :=
+  match find_path_chk (depth t) t (fst q) (snd q) with Ok p => p | _ => [4242%nat] end.
+
 Definition model_v (H W : nat) (vops : list vop) (vc : vctx) (c : ct) (v : vtree) : vres :=
   match layout vc v c with
   | Ok t =>
       match render vc v t (apply_chain (of_size H W) vops) (mkR (init_canvas (H * W)) []) with
       | Ok s =>
           VRes t (enc_canvas (r_data s)) (filter (fun e => fst e <? LEAF_TAG) (r_log s)) []
-               (map (fun q => find_path (depth t) t (fst q) (snd q)) (grid t))
+               (map (fp t) (grid t))
       | _ => VPanic
       end
   | _ => VPanic
@@ -181,6 +186,22 @@ Definition grid_lookup (t : ltree) (paths : list (list nat)) (qr qc : N) : optio
   let qw := N.min (l_ww t + 2) 14 in
   if (qr <? qh) && (qc <? qw) then nth_error paths (N.to_nat (qr * qw + qc)) else None.
 
+(* Flex lays out every child WITHOUT a usable factor (none, or a factor that is not a finite positive
+   number) under the loosened constraint of the whole box: a probe leaf there reports its natural size
+   cut to the box.  Checked at the root, where the constraint is known. *)
+Definition nonflex_probes_sized (c : ct) (v : vtree) (t : ltree) : bool :=
+  match v with
+  | VFlex _ _ cs =>
+      (fix go (cs : list fchild) (ks : list ltree) {struct cs} : bool :=
+         match cs, ks with
+         | (VProbe _ ph pw, None, _, _) :: cs', k :: ks' =>
+             (l_hh k =? N.min ph (c_maxh c)) && (l_ww k =? N.min pw (c_maxw c)) && go cs' ks'
+         | _ :: cs', _ :: ks' => go cs' ks'
+         | _, _ => true
+         end) cs (l_kids t)
+  | _ => true
+  end.
+
 Definition holds_v (H W : nat) (vops : list vop) (glyphs : bool) (c : ct) (v : vtree) (impl : vres) : bool :=
   match impl with
   | VPanic => false
@@ -190,6 +211,7 @@ Definition holds_v (H W : nat) (vops : list vop) (glyphs : bool) (c : ct) (v : v
       let ex := expect glyphs v t full [] in
       (* sentinels *)
       outside_intact (H * W) (win_cells W w0) canvas
+      && (if ct_valid c then nonflex_probes_sized c v t else true)
       (* sizes within constraints: the root, and every traced node *)
       && (if claimed (vkind c v) && ct_valid c then within c (l_hh t) (l_ww t) else true)
       && forallb (fun e : N * ct * N * N =>
@@ -253,7 +275,7 @@ Definition fgrid : list (N * N) :=
 Definition c10_check (cs : c10_case) : bool * bool :=
   match cs with
   | CF t paths =>
-      ( paths_eqb (map (fun q => find_path (depth t) t (fst q) (snd q)) fgrid) paths,
+      ( paths_eqb (map (fp t) fgrid) paths,
         (length paths =? length fgrid)%nat
         && forallb (fun qp : (N * N) * list nat => follows_b (S (depth t)) t (fst (fst qp)) (snd (fst qp)) (snd qp))
                    (combine fgrid paths) )
